@@ -135,7 +135,7 @@ CHECKS['C12'] = dict(
 CHECKS['C04'] = dict(
     category='model_checking', engine='seqz',
     text='Bounded model checking of the real abort path: TestExecutor._execute_abortable_sequence/_execute_node/abort/..., PhaseExecutor.execute_phase/_execute_phase_once/abort/reset_stop and PhaseExecutorThread are sequentialised from the live source; '
-         'test programs (setup/main/teardown groups) run as coroutines on cooperative primitives while one or two abort() calls arrive at symbolic steps under a symbolic preemption; after every schedule: the outcome is ABORTED iff an abort arrived before the end, '
+         'test programs (a single phase, setup/main/teardown groups, a group nested in a teardown, and in the thorough tier a repeating phase) run as coroutines on cooperative primitives while one or two abort() calls arrive at symbolic steps under a symbolic preemption; after every schedule: the outcome is ABORTED iff an abort arrived before the end, '
          'no main-phase body starts after abort() returned, teardown of every entered group runs exactly once, a second abort skips at most the current teardown phase, and the executor always terminates.',
     note='Trusted: CrossHair+z3, vlib/seqz transformer and primitives, phase bodies as scripted coroutines with virtual durations. One class of schedule violates the statement on the pinned tree and is listed as known finding D13 (abort lost between the executor check and the phase start). Outside: >2 aborts, plugs tearDown under abort, real signal delivery. Schedule variables are pinned by bisection and the pinned schedule runs natively on the sequentialised code (the solver partitions and exhausts the schedule domain; it does not reason symbolically about the code inside a path). Counterexamples replay in the sequentialised model, not on real threads; the genuine findings were additionally reproduced on real threads by scripts under findings/.',
     technique='sequentialisation of the real executor abort path + symbolic schedule (CrossHair/z3)',
